@@ -47,6 +47,38 @@ pub enum End {
     /// finalize_customized_xml with a transformer appending this comment
     FinalizeXml(String),
     Drop,
+    /// finalize_customized_xml with a transformer that removes the line breaks between elements
+    /// (all of them, or all but the one after the XML declaration): a single-line document
+    FinalizeMinified { keep_first: bool },
+}
+
+/// Remove the line breaks outside CDATA sections.
+pub fn minify(xml: &str, keep_first: bool) -> String {
+    let mut out = String::with_capacity(xml.len());
+    let mut rest = xml;
+    let mut kept = !keep_first;
+    while !rest.is_empty() {
+        let (plain, cdata, tail) = match rest.find("<![CDATA[") {
+            Some(p) => {
+                let end = rest[p..].find("]]>").map(|e| p + e + 3).unwrap_or(rest.len());
+                (&rest[..p], &rest[p..end], &rest[end..])
+            }
+            None => (rest, "", ""),
+        };
+        for c in plain.chars() {
+            if c == '\n' || c == '\r' {
+                if !kept {
+                    kept = true;
+                    out.push(c);
+                }
+                continue;
+            }
+            out.push(c);
+        }
+        out.push_str(cdata);
+        rest = tail;
+    }
+    out
 }
 
 #[derive(Clone, Debug, PartialEq, Serialize, Deserialize)]
@@ -90,7 +122,7 @@ pub fn compact_cloud(s: &mut Src) -> CloudSpec {
         proto.push(Rec { prefix: None, name: name.to_string(), ty });
     }
     let cap = gen::cap_hint(&proto).unwrap_or(1000) as u32;
-    let n = (*s.pick(&[2 * cap + 1, 2 * cap + 2, 3 * cap + 1, 2 * cap - 1])).min(400_000);
+    let n = (*s.pick(&[2 * cap + 1, 2 * cap + 2, 3 * cap + 1, 2 * cap - 1, 2 * cap + 1, 5 * cap + 3, 8 * cap + 1])).min(400_000);
     CloudSpec { guid: gen::guid(s), proto, n, seed: s.u64(), nan_ok: true, meta: CloudMeta::default(), finalize: true, clear_limits: 0 }
 }
 
@@ -133,7 +165,11 @@ pub fn valid_program(s: &mut Src, o: &GenOpts) -> Program {
             _ => ops.push(Op::Image(gen::image_spec(s, o.density))),
         }
     }
-    let end = if s.chance(1, 5) { End::FinalizeXml(format!("<!-- {} -->", s.below(1000))) } else { End::Finalize };
+    let end = match s.weighted(&[12, 3, 1]) {
+        0 => End::Finalize,
+        1 => End::FinalizeXml(format!("<!-- {} -->", s.below(1000))),
+        _ => End::FinalizeMinified { keep_first: s.flag() },
+    };
     Program { guid: gen::guid(s), ops, end }
 }
 
@@ -429,6 +465,25 @@ pub fn exec(p: &Program, dev: MemDev, tr: &mut Trace) {
             tr.finalized = true;
         }
         End::Drop => {}
+        End::FinalizeMinified { keep_first } => {
+            marker.mark("finalize");
+            tr.finalize_entered = true;
+            let captured = std::cell::RefCell::new(None);
+            let r = w.finalize_customized_xml(|xml| {
+                let out = minify(&xml, *keep_first);
+                *captured.borrow_mut() = Some(out.clone());
+                Ok(out)
+            });
+            tr.current = "finalize_customized_xml".into();
+            tr.calls += 1;
+            tr.xml_out = captured.into_inner();
+            if let Err(e) = r {
+                tr.error = Some(("finalize_customized_xml".into(), e.to_string()));
+                return;
+            }
+            tr.after_ok("finalize_customized_xml");
+            tr.finalized = true;
+        }
     }
 }
 
